@@ -71,11 +71,11 @@ func NormDiag(d string) (file, msg string) {
 }
 
 var (
-	reMore   = regexp.MustCompile(` \(and \d+ more errors\)`)
-	reAt     = regexp.MustCompile(` at [a-z_]+\.go:\d+:\d+`)
-	reIdent  = regexp.MustCompile(`\b[A-Z][A-Za-z0-9_]*\b`)
-	reGen    = regexp.MustCompile(`ID\[[^ ]*\]`)
-	reSel    = regexp.MustCompile(`\b[a-zA-Z0-9]+(\.ID)+`)
+	reMore  = regexp.MustCompile(` \(and \d+ more errors\)`)
+	reAt    = regexp.MustCompile(` at [a-z_]+\.go:\d+:\d+`)
+	reIdent = regexp.MustCompile(`\b[A-Z][A-Za-z0-9_]*\b`)
+	reGen   = regexp.MustCompile(`ID\[[^ ]*\]`)
+	reSel   = regexp.MustCompile(`\b[a-zA-Z0-9]+(\.ID)+`)
 )
 
 // DiagClass abstracts identifiers, instantiations, selectors and counts out of a diagnostic so that
